@@ -355,7 +355,7 @@ def check_config(ctx, F, tag, cfg):
     return sites
 
 
-def check_cursors(ctx, F, tag):
+def check_cursors(ctx, F, tag, prefix="C08.R4"):
     OI = "bit_vector::OneIter"
     n = 0
     for b in F.all_bodies():
@@ -383,7 +383,7 @@ def check_cursors(ctx, F, tag):
                         okn, how = True, "(rank, select_unchecked(parent, rank))"
                 if b.name == "<bit_vector::OneIter<'a, T> as std::clone::Clone>::clone":
                     continue
-                ctx.ob("C08.R4.cursor-provenance", "%s|OneIter#%d%s" % (b.name, n, tag), loc(st["sp"]), okl and okn, "term-provenance",
+                ctx.ob(prefix + ".cursor-provenance", "%s|OneIter#%d%s" % (b.name, n, tag), loc(st["sp"]), okl and okn, "term-provenance",
                        "limit = (T::count_ones(parent), parent.len()): %s; next = %s: %s" % (okl, how, okn))
     ctx.count("one-iter-aggregates" + tag, n)
     ctx.floor("one-iter-aggregates" + tag, 6)
@@ -393,7 +393,7 @@ def check_cursors(ctx, F, tag):
         for fld in ("next", "limit"):
             if field_store_blocks(b, OI, fld) and not b.name.startswith("<bit_vector::OneIter<'a, T> as std::iter::"):
                 bad.append(b.name)
-    ctx.ob("C08.R4.cursor-stores", OI + tag, "src/bit_vector.rs", not bad, "who-may-store", "stores to OneIter.next/limit outside its Iterator impls: %s" % bad)
+    ctx.ob(prefix + ".cursor-stores", OI + tag, "src/bit_vector.rs", not bad, "who-may-store", "stores to OneIter.next/limit outside its Iterator impls: %s" % bad)
     # sparse OneIter: limit = Pos{high.len(), low.len()}
     SO = "sparse_vector::OneIter"
     k = 0
@@ -406,7 +406,7 @@ def check_cursors(ctx, F, tag):
                 ok = lim[0] == "adt" and lim[1] == "sparse_vector::Pos" and \
                     m(Call(lambda n_: n_.endswith("::len"), ANY), lim[4][0]) and any(self_path_any(x, "high") for x in subterms(lim[4][0])) and \
                     m(Call(lambda n_: n_.endswith("::len"), ANY), lim[4][1]) and any(self_path_any(x, "low") for x in subterms(lim[4][1]))
-                ctx.ob("C08.R4.cursor-provenance", "%s|sparse::OneIter#%d%s" % (b.name, k, tag), loc(st["sp"]), ok, "term-provenance", "limit = Pos{high.len(), low.len()}: %s" % ok, nontrivial=False)
+                ctx.ob(prefix + ".cursor-provenance", "%s|sparse::OneIter#%d%s" % (b.name, k, tag), loc(st["sp"]), ok, "term-provenance", "limit = Pos{high.len(), low.len()}: %s" % ok, nontrivial=False)
     ctx.count("sparse-one-iter-aggregates" + tag, k)
     ctx.floor("sparse-one-iter-aggregates" + tag, 5)
 
